@@ -1,6 +1,8 @@
 (* Property C08 - edge-border pixels and sub-threshold (cold) pixels never influence detection. *)
 From Coq Require Import List ZArith Bool.
 From TR Require Import model.Ring model.Detector model.DetSpec proofs.DetC07 proofs.DetC08.
+(* constants and wiring read from the Go sources on every run *)
+From TR Require Import proofs.FactsDet.
 Import ListNotations.
 Open Scope Z_scope.
 
